@@ -53,7 +53,7 @@ constexpr long int NbRhs = NRHS;
 using Config = TbfSpacialConfiguration<RealType, Dim>;
 using SpaceIndex = TbfMortonSpaceIndex<Dim, Config, (PERIODIC != 0)>;
 using Multipole = std::array<long int, 1>;
-using Local = std::array<long int, 1>;
+using Local = std::array<long int, 3>;      // deliberately not the size of the multipole: views must not confuse the two buffers
 using Tree = TbfTree<RealType, DataType, NbData, long int, NbRhs, Multipole, Local, SpaceIndex>;
 #if NRHS > 0
 using TreeTsm = TbfTreeTsm<RealType, DataType, NbData, long int, NbRhs, Multipole, Local, SpaceIndex>;
@@ -170,6 +170,67 @@ static void digest(Tree& tree){
     std::cout << "DG " << std::hex << h << std::dec << "\n";
 }
 
+// byte copies of every group's buffers, viewed through the raw-memory constructors (array of pairs and explicit pointers):
+// every accessor must return what the original returns
+static void byteCopyCheck(Tree& tree){
+    long groups = 0, values = 0, bad = 0;
+    for(long l = 0 ; l < tree.getHeight() ; ++l){
+        for(auto& g : tree.getCellGroupsAtLevel(l)){
+            auto ps = g.getDataPtrsAndSizes();
+            std::vector<std::unique_ptr<unsigned char[]>> bufs;
+            std::array<std::pair<unsigned char*, size_t>, 3> cp;
+            for(int k = 0 ; k < 3 ; ++k){
+                bufs.emplace_back(new unsigned char[ps[k].second + 16]);
+                cp[k].first = bufs.back().get() + 8; cp[k].second = ps[k].second;
+                std::memcpy(cp[k].first, ps[k].first, ps[k].second);
+            }
+            typename Tree::CellGroupClass viewA(cp);
+            typename Tree::CellGroupClass viewB(cp[0].first, cp[0].second, cp[1].first, cp[1].second, cp[2].first, cp[2].second);
+            ++groups;
+            for(auto* view : {&viewA, &viewB}){
+                ++values; if(view->getNbCells() != g.getNbCells() || view->getStartingSpacialIndex() != g.getStartingSpacialIndex() || view->getEndingSpacialIndex() != g.getEndingSpacialIndex()) ++bad;
+                for(long c = 0 ; c < g.getNbCells() ; ++c){
+                    ++values; if(view->getCellSpacialIndex(c) != g.getCellSpacialIndex(c)) ++bad;
+                    ++values; if(std::memcmp(&view->getCellMultipole(c), &g.getCellMultipole(c), sizeof(Multipole)) != 0) ++bad;
+                    ++values; if(std::memcmp(&view->getCellLocal(c), &g.getCellLocal(c), sizeof(Local)) != 0) ++bad;
+                    // relative addresses agree
+                    ++values; if((reinterpret_cast<const unsigned char*>(&view->getCellLocal(c)) - cp[2].first) != (reinterpret_cast<const unsigned char*>(&g.getCellLocal(c)) - ps[2].first)) ++bad;
+                    ++values; if((reinterpret_cast<const unsigned char*>(&view->getCellMultipole(c)) - cp[1].first) != (reinterpret_cast<const unsigned char*>(&g.getCellMultipole(c)) - ps[1].first)) ++bad;
+                }
+            }
+        }
+    }
+    for(auto& g : tree.getParticleGroups()){
+        auto ps = g.getDataPtrsAndSizes();
+        std::vector<std::unique_ptr<unsigned char[]>> bufs;
+        std::array<std::pair<unsigned char*, size_t>, 2> cp;
+        for(int k = 0 ; k < 2 ; ++k){
+            bufs.emplace_back(new unsigned char[ps[k].second + 16]);
+            cp[k].first = bufs.back().get() + 8; cp[k].second = ps[k].second;
+            std::memcpy(cp[k].first, ps[k].first, ps[k].second);
+        }
+        typename Tree::LeafGroupClass viewA(cp);
+        typename Tree::LeafGroupClass viewB(cp[0].first, cp[0].second, cp[1].first, cp[1].second);
+        ++groups;
+        for(auto* view : {&viewA, &viewB}){
+            ++values; if(view->getNbLeaves() != g.getNbLeaves() || view->getNbParticles() != g.getNbParticles()) ++bad;
+            for(long lf = 0 ; lf < g.getNbLeaves() ; ++lf){
+                ++values; if(view->getLeafSpacialIndex(lf) != g.getLeafSpacialIndex(lf) || view->getNbParticlesInLeaf(lf) != g.getNbParticlesInLeaf(lf) || view->getLeafBoxCoord(lf) != g.getLeafBoxCoord(lf)) ++bad;
+                const auto d0 = TbfUtils::make_const(g).getParticleData(lf); const auto d1 = TbfUtils::make_const(*view).getParticleData(lf);
+                for(long p = 0 ; p < g.getNbParticlesInLeaf(lf) ; ++p){
+                    ++values; if(view->getParticleIndexes(lf)[p] != g.getParticleIndexes(lf)[p]) ++bad;
+                    for(long k = 0 ; k < NbData ; ++k){ ++values; if(std::memcmp(&d0[k][p], &d1[k][p], sizeof(DataType)) != 0) ++bad; }
+                }
+#if NRHS > 0
+                const auto r0 = TbfUtils::make_const(g).getParticleRhs(lf); const auto r1 = TbfUtils::make_const(*view).getParticleRhs(lf);
+                for(long p = 0 ; p < g.getNbParticlesInLeaf(lf) ; ++p) for(long k = 0 ; k < NbRhs ; ++k){ ++values; if(r0[k][p] != r1[k][p]) ++bad; }
+#endif
+            }
+        }
+    }
+    std::cout << "BC groups=" << groups << " values=" << values << " bad=" << bad << "\n";
+}
+
 int main(){
     std::ios::sync_with_stdio(false);
     Case cs;
@@ -281,6 +342,7 @@ int main(){
         else if(op == "dump" && ts[1] == "zero"){ dumpZero(*cs.tree); }
         else if(op == "dump" && ts[1] == "rhs"){ dumpRhs(*cs.tree); }
         else if(op == "digest"){ digest(*cs.tree); }
+        else if(op == "bytecopy"){ byteCopyCheck(*cs.tree); }
         else if(op == "fexec"){
 #if NRHS > 0
             std::unique_ptr<TbfAlgorithm<RealType, TbfTestKernel<RealType, SpaceIndex>, SpaceIndex>> algo(
